@@ -133,6 +133,21 @@ def run(rep, tier, seed):
                 g1 = np.asarray(CF.GreaterThan(xv, y)).reshape(-1); g2 = np.asarray(CF.LessThan(xv, y)).reshape(-1)
                 if not (np.array_equal(g1, (xs > y).astype(int)) and np.array_equal(g2, (xs < y).astype(int))):
                     fails.append((dict(function="GreaterThan/LessThan", x=repr(xv), y=y), "comparison helper differs from > / <"))
+    # strided views are vector arguments like any other
+    base = np.array([-2.0, 9.0, 0.5, 9.0, 1.0, 9.0, 3.0, 9.0])
+    for view, vname in ((base[0:8:2], "x[0:8:2]"), (base[6::-2], "x[6::-2]")):
+        xs = np.array(view, dtype=float)
+        ndirect += 1
+        try:
+            got = np.asarray(CF.Saturation(view, -1.0, 1.0), dtype=float).reshape(-1)
+            exp = np.array([doc("sat", v, -1.0, 1.0) for v in xs])
+            g_in = np.asarray(CF.In(view, -1.0, 1.0), dtype=float).reshape(-1); g_lt = np.asarray(CF.LessThan(view, 0.5), dtype=float).reshape(-1)
+            g_gt = np.asarray(CF.GreaterThan(view, 0.5), dtype=float).reshape(-1)
+            if not (np.array_equal(got, exp) and np.array_equal(g_in, ((xs >= -1) & (xs <= 1)).astype(float)) and
+                    np.array_equal(g_lt, (xs < 0.5).astype(float)) and np.array_equal(g_gt, (xs > 0.5).astype(float))):
+                fails.append((dict(function="Saturation/In/LessThan/GreaterThan", x=vname), f"helpers on the strided view {vname} = {xs} return {got}, {g_in}, {g_lt}, {g_gt}"))
+        except Exception as ex:  # noqa
+            fails.append((dict(function="Saturation/In/LessThan/GreaterThan", x=vname), f"helpers refuse the strided view {vname} (a vector argument): {type(ex).__name__}: {str(ex)[:80]}"))
     for a, b in itertools.product([0, 1], repeat=2):
         av, bv = np.array([a], dtype=np.int32), np.array([b], dtype=np.int32)
         if int(CF.And(av, bv)[0]) != (a and b) or int(CF.Or(av, bv)[0]) != (a or b) or int(CF.Not(av)[0]) != 1 - a:
